@@ -1,6 +1,6 @@
 #!/bin/bash
 # confirm one seeded change: suite passes with it, demo fails with it, demo passes without it
-id=$1; v=$2; w=/tmp/seed/$id
+id=$1; v=$2; w=${SEEDROOT:-/tmp/seed}/$id
 cd $w || exit 2
 git checkout -q -- . ; git clean -fdq -e out -e target -e Cargo.lock
 out=$w/out/confirm_$v.txt; : > $out
